@@ -637,3 +637,71 @@ def drop_edges(cfg, block):
 '''
 round7._FIXTURE_EXPECT["GEN.earlyverdict"] = "matches_any"
 round7._FIXTURE_EXPECT["GEN.loopstale"] = "drop_edges"
+
+
+@rule("C10.12", ["C10", "C12"], "an alignment directive never weakens the requirement already recorded for the (still empty) current block", 1)
+def c10_12(ctx: Ctx):
+    fi = ctx.repo.func("assembler.assembler._Streamer._emit_alignment")
+    lin = linear(fi.node)
+    stores = [g for g in lin.stmts if isinstance(g.node, ast.Assign) and any(isinstance(t, ast.Subscript) and src(t.value).endswith("alignment") or
+                                                                              (isinstance(t, ast.Subscript) and "alignment" in _expanded(fi.node, t.value)) for t in g.node.targets)]
+    if not stores:
+        raise AnalysisError("_emit_alignment: store into the section's alignment map not found")
+    for g in stores:
+        tgt = next(t for t in g.node.targets if isinstance(t, ast.Subscript))
+        m, k = src(tgt.value), src(tgt.slice)
+        v = g.node.value
+        keeps = isinstance(v, ast.Call) and isinstance(v.func, ast.Name) and v.func.id == "max" and any(
+            (isinstance(x, ast.Call) and isinstance(x.func, ast.Attribute) and x.func.attr == "get" and src(x.func.value) == m) or (isinstance(x, ast.Subscript) and src(x.value) == m)
+            for a in v.args for x in ast.walk(a))
+        absent = False
+        try:
+            absent = lin.under(g, f"{k} not in {m}")
+        except Exception:
+            pass
+        ctx.check(keeps or absent, fi, g.node, f"`{src(g.node)[:70]}` keeps the stricter of the old and the new requirement",
+                  f"`{src(g.node)[:80]}` overwrites whatever was recorded for the block: the block is only split when it has bytes, so two directives in a row (`.align 16; .align 4; nop`) hit the "
+                  "same empty block and the last one wins - the assembler pads for both, so the instruction is 16-aligned in the listing, but the patch block is recorded (and later placed) with "
+                  "alignment 4 only", key="_emit_alignment::keeps-stricter")
+
+
+# ----------------------------------------------------------------------------
+# an update loop does not stop after its first update
+# ----------------------------------------------------------------------------
+
+
+@rule("GEN.updatefirst", ALL_PROPS, "a loop that updates every matching element does not leave (bare return / break) right after the first update", 1, scoped=True)
+def gen_updatefirst(ctx: Ctx):
+    n = 0
+    for q, fi in sorted(ctx.repo.funcs.items()):
+        for lp in walk_no_nested(fi.node):
+            if not isinstance(lp, ast.For):
+                continue
+            n += 1
+            for node in ast.walk(lp):
+                for fld in ("body", "orelse"):
+                    b = getattr(node, fld, None)
+                    if not isinstance(b, list):
+                        continue
+                    for i, st in enumerate(b):
+                        bare = isinstance(st, ast.Break) or (isinstance(st, ast.Return) and st.value is None)
+                        if bare and i > 0 and isinstance(b[i - 1], ast.Expr) and isinstance(b[i - 1].value, ast.Call) and not src(b[i - 1].value.func).startswith(("logging.", "log.", "logger.", "warnings.")):
+                            ctx.fail(fi, st, f"`{src(b[i - 1])[:60]}` then `{src(st)}` inside the loop over `{src(lp.iter)[:40]}`",
+                                     f"the loop over `{src(lp.iter)[:50]}` stops after the first `{src(b[i - 1].value.func)}`: the remaining elements are never updated (a callee with three `ret` "
+                                     "blocks: only one arbitrary Return edge follows the call's new fallthrough, the others keep pointing at the old return site), and which element was served "
+                                     "depends on the collection's iteration order", key=f"{q}::updatefirst::{src(b[i - 1].value.func)}")
+    ctx.ok(ctx.repo.mod("rewriting"), None, f"{n} loops examined for an exit right after an update call", nontrivial=False, key="GEN.updatefirst::scan")
+    if n < 150 and "fixture" not in ctx.repo.mods:
+        raise AnalysisError(f"only {n} loops scanned")
+
+
+round7._FIXTURE += '''
+
+def move_returns(cfg, blocks, old, new):
+    for block in blocks:
+        for edge in block.outgoing_edges:
+            if edge.target in old:
+                update_edge(edge, cfg, cfg, target=new)
+                return
+'''
+round7._FIXTURE_EXPECT["GEN.updatefirst"] = "move_returns"
